@@ -207,7 +207,7 @@ impl ToPrimitive for BigDecimalRef<'_> {
         let iter_count = digits_to_remove / 19;
         for _ in 0..iter_count {
             *int_cow.to_mut() /= ten_to_19;
-            scale -= 19;
+            scale = scale.saturating_sub(19);
         }
 
         match scale.to_i32().and_then(|x| x.checked_neg()) {
@@ -241,13 +241,10 @@ impl ToPrimitive for BigDecimalRef<'_> {
                 }
             }
             None => {
-                // exponenent too big for i32: return appropriate infinity
-                let result = if self.sign != Sign::Minus {
-                    f64::INFINITY
-                } else {
-                    f64::NEG_INFINITY
-                };
-                result.into()
+                // exponent too big for i32: the magnitude is far outside the f64 range,
+                // vanishing for a large positive scale and infinite for a large negative one
+                let result = if scale > 0 { 0.0 } else { f64::INFINITY };
+                copy_sign_to_float(result).into()
             }
         }
     }
